@@ -14,7 +14,7 @@ import numpy as np
 from jxmon.gen import trees
 
 PID = 19
-RULE = ("alphabet of 19 concrete operations (insert K/Km/Na on views, delete_channel K/Km on views, set, record, delete_recordings, "
+RULE = ("alphabet of 21 concrete operations (insert K/Km/Na on views, delete_channel K/Km on views, set, record, delete_recordings, "
         "stimulate, clamp, delete_stimuli, delete_clamps, make_trainable, delete_trainables, add_to_group, init_states, set_ncomp, connect) "
         "on a 4-branch cell [2,1,3,2] and a 2-cell network; exhaustive to depth 2 (quick) / 3 (thorough); plus random histories of "
         "length 4-25 over a wider alphabet (7 channels incl. the pairs sharing a column K+Km, Na+K, CaL+CaT; three synapse types; "
@@ -43,6 +43,7 @@ ALPHABET = [
     ("delete_channel", "Km", "b0"), ("set", "radius", "last"), ("record", "v", "c0"), ("delete_recordings", "", "all"), ("stimulate", "", "c0"),
     ("clamp", "v", "last"), ("delete_stimuli", "", "all"), ("delete_clamps", "", "all"), ("make_trainable", "radius", "b0"),
     ("delete_trainables", "", "all"), ("add_to_group", "g", "b1"), ("init_states", "", "all"), ("set_ncomp", "3", "b1"), ("connect", "Iono", "c0>last"),
+    ("record", "IonotropicSynapse_s", "e2"), ("clamp", "IonotropicSynapse_s", "e2"),
 ]
 CHS = ["HH", "Na", "K", "Km", "CaL", "CaT", "Leak"]
 
@@ -121,6 +122,17 @@ def fresh(modname):
     m.set("length", 10.0 + np.arange(n))
     m.set("v", -70.0 + 0.5 * np.arange(n))
     m.branch(0).insert(HH()) if modname == "cell" else m.cell(0).insert(HH())
+    if modname == "net":
+        # synapse types interleaved in the edge table: Iono, Tanh, Iono, Iono (edge 2 has rank 1 within its type)
+        from jaxley.connect import connect
+        from jaxley.synapses import IonotropicSynapse, TanhRateSynapse
+        for a, b, S in ((0, 3, IonotropicSynapse), (1, 4, TanhRateSynapse), (2, 3, IonotropicSynapse), (0, 4, IonotropicSynapse)):
+            connect(m.select(nodes=[a]), m.select(nodes=[b]), S())
+        for e in range(4):
+            col = "IonotropicSynapse_s" if e != 1 else None
+            if col:
+                m.select(edges=[e]).set(col, 0.1 + 0.2 * e)
+            m.select(edges=[e]).set("IonotropicSynapse_gS" if e != 1 else "TanhRateSynapse_gS", 1e-3 * (1 + e))
     return m
 
 
@@ -282,6 +294,8 @@ def apply(m, modname, op, rng):
     import jaxley.synapses as sym
     from jaxley.connect import connect
     kind, arg, vname = op
+    if vname == "e2" and (modname != "net" or len(m.edges) < 3):
+        raise AssertionError("no such edge")
     if kind == "connect":
         a, b = vname.split(">")
         if modname != "net":
@@ -299,7 +313,7 @@ def apply(m, modname, op, rng):
         return v.set(arg, float({"radius": 2.5, "length": 17.0, "v": -61.0, "eK": -85.0, "vt": -58.0, "eCa": 110.0, "capacitance": 1.3}.get(arg, 1.0)))
     if kind == "record":
         if arg.startswith(("IonotropicSynapse", "i_Iono")):
-            v = m.select(edges=np.asarray(m.edges.index[:1]))
+            v = m.select(edges=[2]) if vname == "e2" else m.select(edges=np.asarray(m.edges.index[:1]))
         return v.record(arg, verbose=False)
     if kind == "delete_recordings":
         return v.delete_recordings()
@@ -307,7 +321,7 @@ def apply(m, modname, op, rng):
         return v.stimulate(jnp.asarray(np.full(6, 0.1)), verbose=False)
     if kind == "clamp":
         if arg.startswith("IonotropicSynapse"):
-            v = m.select(edges=np.asarray(m.edges.index[:1]))
+            v = m.select(edges=[2]) if vname == "e2" else m.select(edges=np.asarray(m.edges.index[:1]))
         val = -60.0 if arg == "v" else 0.3
         return v.clamp(arg, jnp.asarray(np.full(6, val)), verbose=False)
     if kind == "delete_stimuli":
